@@ -8,7 +8,12 @@ RowOK(e) ==
   LET n == e.n  sp == e.special  pr == e.pr  tr == e.tr  slot == e.slot  now == e.now
       d == Distance(n, sp, pr, tr)
       wf == WindowFrom(n, d, slot, now)
-  IN /\ e.dist = d /\ d \in 1..n
+  IN \* the deputies in play are those of the term in charge at the target height - for the count, for the rotation's
+     \* special case and for the account the miner's own node stamps into its header
+     /\ n = (IF TermInCharge(e.h, e.td, e.id) = 0 THEN e.c0 ELSE e.c1) /\ e.count = n
+     /\ sp = FirstOfTerm(e.h, e.td, e.id)
+     /\ e.hdr = tr
+     /\ e.dist = d /\ d \in 1..n
      /\ e.bydist = tr                                                \* real round trip distance -> deputy
      /\ e.from = wf /\ e.to = wf + slot /\ e.to > now               \* earliest slot of tr that has not ended
      /\ Entitled(n, sp, pr, slot, e.from) = tr /\ Entitled(n, sp, pr, slot, e.to - 1) = tr
